@@ -180,6 +180,10 @@ func (p *Provider) handleDiscover(pkt *dhcp4.Packet, msg *dhcp4.Message) (*dhcp4
 	}
 
 	pool := p.findPoolForIP(existingLease.IP)
+	if pool == nil {
+		// e.g. an AAA-supplied address outside every configured pool
+		return nil, fmt.Errorf("existing lease %s of %s is in no configured pool", existingLease.IP, mac)
+	}
 	response := p.buildOffer(msg, existingLease.IP, pool)
 	return &dhcp4.Packet{
 		SessionID: pkt.SessionID,
@@ -224,9 +228,10 @@ func (p *Provider) handleRequest(pkt *dhcp4.Packet, msg *dhcp4.Message) (*dhcp4.
 	}
 
 	pool := p.findPoolForIP(requestedIP)
-	if pool != nil {
-		lease.ExpireTime = time.Now().Add(time.Duration(pool.LeaseTime) * time.Second)
+	if pool == nil {
+		return nil, fmt.Errorf("lease %s of %s is in no configured pool", requestedIP, mac)
 	}
+	lease.ExpireTime = time.Now().Add(time.Duration(pool.LeaseTime) * time.Second)
 
 	response := p.buildAck(msg, requestedIP, pool)
 	return &dhcp4.Packet{
